@@ -89,7 +89,7 @@ func HarnessC13a() {
 	changed := false
 	nmods := 0
 	for i := 0; i < B; i++ {
-		k, v := verifNondetU64("k"), verifNondetU64("v")
+		k, v := verifNondetKey("k"), verifNondetVal("v")
 		f, mv := md.lookup(k)
 		if verifChoose("mod", 2) == 0 {
 			err := cur.Insert(vctx, symKey{k}, v)
